@@ -704,6 +704,7 @@ void Net::runProc(Proc *p)
         case ST_EXPECT: {
             bool f = false;
             if (stepExpect(p, st, f)) break;
+            if (f && st.soft) { hist("PSOFT\t%s\t%d\t%d", p->name.c_str(), p->conn ? p->conn->id : 0, st.line); break; }
             if (f) { fail = true; why = "expect-eof"; break; }
             blocked = true;
             break;
@@ -735,6 +736,11 @@ void Net::runProc(Proc *p)
             uint64_t to = st.timeoutUs ? st.timeoutUs : g_scn.knobU("peer.expect_timeout_us", 0, DEFAULT_EXPECT_TIMEOUT_US);
             if (st.kind == ST_SEND) return; // sends block only on flow control
             if (!p->blockDeadline) { p->blockDeadline = nowUs() + to; at(p->blockDeadline, [this, p] { runProc(p); }); }
+            else if (nowUs() >= p->blockDeadline && st.soft) {
+                hist("PSOFT\t%s\t%d\t%d", p->name.c_str(), p->conn ? p->conn->id : 0, st.line);
+                p->blockDeadline = 0; p->exStage = 0; ++p->pc;
+                at(nowUs(), [this, p] { runProc(p); });
+            }
             else if (nowUs() >= p->blockDeadline) {
                 hist("PFAIL\t%s\t%d\t%d\ttimeout", p->name.c_str(), p->conn ? p->conn->id : 0, st.line);
                 probe("peer.timeout");
